@@ -2,6 +2,8 @@ import ImathVerif.Model.FixedArray
 import ImathVerif.Model.FixedArray2D
 import ImathVerif.Model.StringTable
 import ImathVerif.Model.BufferProtocol
+import ImathVerif.Model.FixedArrayWitness
+import ImathVerif.Spec.PyList
 /-!
 Line-protocol driver for the PyImath array models (C19).
 
@@ -19,7 +21,10 @@ then ` | ` 2-D arrays `LXxLY[...]` (j-major), then ` | ` matrices `RxC[...]` whe
   ifelses v c x | ifelsev v c o | ro v | iadds v x | iaddv v d
   IDX = i:<int> | s:<start>:<stop>:<step>   (N = None)
 slice normalisation alone (PySlice_GetIndicesEx):
-  slice len start stop step            -> `ok start stop step slicelength` | `err ...`
+  slice len start stop step            -> `ok start stop step slicelength [positions]` | `err ...`
+  specslice len start stop step        -> `[indices]` of the SPECIFICATION `PyList.sliceIndices` | `none`
+  specgetitem len i                    -> position `PyList.getitem` selects on `[0..len-1]` | `none`
+  witnesses                            -> the witness programs of `Model/FixedArrayWitness.lean`, `# name` + op lines
 2-D (`Model/FixedArray2D.lean`):
   d2 alloc lx ly vals | d2 item v i j | d2 getslice v IDX IDY | d2 setscalar v IDX IDY x | d2 setvector v IDX IDY d
   d2 set1d v IDX IDY d1 | d2 getmask v m | d2 setscalarmask v m x | d2 setvectormask v m d
@@ -110,8 +115,24 @@ def handleSlice (t : List String) : String :=
   match t with
   | [len, a, b, c] =>
     match extractSliceIndices len.toNat! (.slice (parseOpt a) (parseOpt b) (parseOpt c)) with
-    | .ok s => s!"ok {s.start} {s.stop} {s.step} {s.slicelength}"
+    | .ok s => s!"ok {s.start} {s.stop} {s.step} {s.slicelength} {showInts ((List.range s.slicelength).map (fun i => Int.ofNat (s.at i)))}"
     | .error e => showErr e
+  | _ => "bad"
+
+def handleSpecSlice (t : List String) : String :=
+  match t with
+  | [len, a, b, c] =>
+    match ImathVerif.PyList.sliceIndices len.toNat! (parseOpt a) (parseOpt b) (parseOpt c) with
+    | some l => showInts (l.map (fun (i : Nat) => (Int.ofNat i)))
+    | none => "none"
+  | _ => "bad"
+
+def handleSpecGetitem (t : List String) : String :=
+  match t with
+  | [len, i] =>
+    match ImathVerif.PyList.getitem (List.range len.toNat!) (parseInt i) with
+    | some k => toString k
+    | none => "none"
   | _ => "bad"
 
 def withHeap (d : DState) (r : Except Err Heap) : DState × String :=
@@ -216,6 +237,13 @@ partial def loop (cfg : Cfg) (stdin stdout : IO.FS.Stream) (d : DState) : IO Uni
   | [] => loop cfg stdin stdout d
   | ["reset"] => stdout.putStrLn "reset"; loop cfg stdin stdout {}
   | "slice" :: rest => stdout.putStrLn (handleSlice rest); loop cfg stdin stdout d
+  | "specslice" :: rest => stdout.putStrLn (handleSpecSlice rest); loop cfg stdin stdout d
+  | "specgetitem" :: rest => stdout.putStrLn (handleSpecGetitem rest); loop cfg stdin stdout d
+  | ["witnesses"] =>
+    for (name, ops) in witnesses do
+      stdout.putStrLn ("# " ++ name)
+      for op in ops do stdout.putStrLn op.line
+    loop cfg stdin stdout d
   | "d2" :: rest =>
     let (d', out) := handle2D d rest
     stdout.putStrLn (out ++ ";" ++ d'.dump); loop cfg stdin stdout d'
